@@ -326,7 +326,7 @@ Definition convert_all_attrs (aunits : list aunit) : res (idmap * list cdie) :=
 (* ------------------------------------------------------------------------------------------ *)
 (* 6. Split DWARF: FilterUnitSection::new_split reads every unit of the .dwo section into one dependency
    map exactly like FilterUnitSection::new; ConvertSplitUnitSection::new_with_filter converts the FIRST unit
-   and (as repaired, FIXCOMMIT) hands new_with_offsets the reachable offsets that lie in that unit:
+   and (as repaired, 7a2e6de) hands new_with_offsets the reachable offsets that lie in that unit:
    `offsets.retain(|offset| offset.to_unit_offset(&split_unit).is_some())`.                        *)
 Definition own_offsets (u : unitd) (offs : list N) : list N :=
   filter (fun x => match to_unit_offset u x with Some _ => true | None => false end) offs.
